@@ -87,6 +87,12 @@ Record case := mk_case {
 
 Definition first_owner (l : list string) : option string := match l with x :: _ => Some x | [] => None end.
 
+Lemma first_owner_sound : forall l s, first_owner l = Some s -> In s l.
+Proof. intros [|x t] s Hs; simpl in Hs; inversion Hs; left; reflexivity. Qed.
+
+Lemma first_owner_total : forall l, l <> [] -> exists s, first_owner l = Some s.
+Proof. intros [|x t] H; [congruence|]. exists x. reflexivity. Qed.
+
 Definition opt_nodes_eqb (a b : option (list node)) : bool :=
   match a, b with Some x, Some y => nodes_eqb x y | None, None => true | _, _ => false end.
 Definition opt_plan_eqb (a b : option plan) : bool :=
@@ -104,7 +110,7 @@ Definition check_case (c : case) : list nat :=
               end in
   (if opt_nodes_eqb flat (c_flat c) then [] else [1]) ++
   (if c_explicit c then
-     let p := match flat with Some f => plan_root g first_owner fuel f | None => None end in
+     let p := match flat with Some f => plan_root g first_owner (2 * fuel + 2) f | None => None end in
      if opt_plan_eqb p (c_plan c) then [] else [2]
    else []) ++
   (if opt_json_eqb (option_map norm (fed_exec w g first_owner false true (c_query c))) (c_answer c) then [] else [3]) ++
